@@ -385,6 +385,27 @@ def run(ctx):
                         ctx.hit("event:batch combined with a single value, then refilled")
                         if not np.array_equal(np.asarray(r1), keep, equal_nan=True):
                             ctx.violation(f"{name}: a returned result changes when an operand array is later modified (aliases its operand)", {"norm": name, "single": single, "batch_first": batch_first}, keep, r1)
+        # batches without elements (an empty selection of a dataset): the result is the empty batch of the broadcast shape; and
+        # values made with the library's own scalar() belong to whoever made them: updating one in place changes nothing else
+        for i, rnd in ctx.cases("empty batches and scalar()", len(names)):
+            with ctx.guarded():
+                norm = getattr(fl, names[i])()
+                for a, b in ((np.empty(0), np.empty(0)), (np.empty((0, 3)), np.array([0.25, 0.5, 1.0])), (0.75, np.empty(0)), (np.empty((2, 0)), 0.5), ([], [])):
+                    try:
+                        norm.compute(a, b)
+                    except Exception:
+                        pass  # judged by the monitor
+                ctx.hit("workload:zero-size batches")
+                for v in (0.0, 1.0, 0.5, 0.25):
+                    z = fl.scalar(v)
+                    if isinstance(z, np.ndarray) and z.flags.writeable:
+                        z += 0.125  # the caller's own running value
+                    w = fl.to_float(v)
+                    w = w + 0.125
+                    for other in (np.array([0.0, 0.25, 1.0]), 0.75, 1.0, 0.0):
+                        norm.compute(v, other)
+                        norm.compute(other, v)
+                ctx.hit("event:a value made with scalar() updated in place by its owner")
         # the library under another floating-point type: the formulas, the range and the special pairs hold at that precision
         for i, rnd in ctx.cases("float-types", len(names) * ctx.scale(2, 20)):
             with ctx.guarded():
@@ -419,6 +440,7 @@ def run(ctx):
         reach.report(ctx)
     ctx.exhaustive = True
     ctx.extra["exhaustive_space"] = f"all pairs and triples of the dyadic grid k/2^{m} per norm (plus non-exhaustive random doubles)"
+    ctx.require("workload:zero-size batches", "event:a value made with scalar() updated in place by its owner")
     ctx.require("float_type:float32", "float_type:float16", "event:batch combined with a single value, then refilled", *[f"environment:{e}" for e in ENVIRONMENTS])
     ctx.require("workload:large batch", "law:results of earlier calls left alone", "workload:pairs of extreme magnitudes", "operand form:transposed", "operand form:0-d with batch", "operand form:read-only row broadcast over a batch")
     for name in R.REF:
